@@ -516,8 +516,8 @@ theorem afterDelim_tailOf (bnd : Bytes) (ps : List Part) :
   | nil => exact Or.inl ⟨rfl, ep, rfl, rfl⟩
   | cons p ps =>
     rcases hdrBlock_head nl (nameOf p) p with ⟨r, hr⟩
-    refine Or.inr ⟨rfl, 67, r ++ (nl.bytes ++ dataOf nl bnd ep p ps), by decide, ?_, ?_⟩
-    · simp only [tailOf, hr, List.cons_append]
+    refine Or.inr ⟨rfl, [], 67, r ++ (nl.bytes ++ dataOf nl bnd ep p ps), by simp, by decide, ?_, ?_⟩
+    · simp only [tailOf, hr, List.cons_append, List.nil_append]
     · simp only [afterOf, hr, List.cons_append]
 
 /-- PREAMBLE: the first delimiter is at offset 0 -/
